@@ -163,18 +163,20 @@ harnesses! {
         forget(r);
     }
 
-    // quick variant: one warm-up call (its last instant is -4 + 3/1 = -1 by the documented start
-    // position, checked by c07_ffo_steady), ratio on the k/32 grid
+    // quick variants: ratio on the k/32 grid
     #[kani::unwind(8)]
     fn c06_ffo_change_grid(nd) {
         let mut r = FastFixedOut::<f64>::new(1.0, 2.0, PolynomialDegree::Linear, 3, 1).unwrap();
         let mut st = new_stream!();
         let mut tau = [0.0f64; 3];
+        // two warm-up calls: after the second one the whole pre-roll holds line data
         let (ok, _, n) = call_line::<_, _, 14, 3>(nd, &mut r, &mut st, &mut tau);
         check!(ok && n == 3, "C03.ok[base]");
-        st.last = -1.0;
+        let (ok, _, n) = call_line::<_, _, 14, 3>(nd, &mut r, &mut st, &mut tau);
+        check!(ok && n == 3, "C03.ok[base]");
+        st.last = tau[2];
         st.have_last = true;
-        st.produced = 3;
+        st.produced = 6;
         let k = nd.u8();
         let newr = (k as f64) / 32.0;
         let ramp = nd.bool();
@@ -195,10 +197,11 @@ harnesses! {
         let mut tau = [0.0f64; 3];
         let (ok, _, n) = call_line::<_, _, 14, 3>(nd, &mut r, &mut st, &mut tau);
         check!(ok && n == 3, "C03.ok[base]");
-        // probe value = window centre = idx + 4: last warm-up frame idx -1 -> instant 3
-        st.last = 3.0;
+        let (ok, _, n) = call_line::<_, _, 14, 3>(nd, &mut r, &mut st, &mut tau);
+        check!(ok && n == 3, "C03.ok[base]");
+        st.last = tau[2];
         st.have_last = true;
-        st.produced = 3;
+        st.produced = 6;
         let k = nd.u8();
         let newr = (k as f64) / 32.0;
         let ramp = nd.bool();
